@@ -1,8 +1,8 @@
-(* C15: a rejected single-element call leaves the model unchanged (outside finding 4) *)
+(* C15: a rejected single-element call leaves the model unchanged *)
 From Coq Require Import List Arith Bool Lia.
-From TT Require Import Base.HeapTypes Model.Heap Model.HeapTriggers Spec.ModelWF
+From TT Require Import Base.HeapTypes Model.Heap Model.HeapRep Spec.ModelWF
   Proofs.C15.HeapLemmas Proofs.C15.Links Proofs.C15.Tree Proofs.C15.Frames Proofs.C15.LinkOps Proofs.C15.Values
-  Proofs.C15.Dfs Proofs.C15.AttrCalls Proofs.C15.LinkCalls Proofs.C15.SetDoc Proofs.C15.SetDocTree Proofs.C15.Step.
+  Proofs.C15.Dfs Proofs.C15.Users Proofs.C15.AttrCalls Proofs.C15.LinkCalls Proofs.C15.SetDoc Proofs.C15.Step.
 Import ListNotations.
 
 Ltac crush_err :=
@@ -23,16 +23,18 @@ Lemma remove_err h s h' e : remove h s = RErr h' e -> h' = h.
 Proof. unfold remove. destruct (n_parent (nd h s)); [apply remove_child_err|discriminate]. Qed.
 Lemma set_region_err h s r h' e : set_region_m h s r = RErr h' e -> h' = h.
 Proof. unfold set_region_m. crush_err. Qed.
-Lemma put_region_err h d r h' e : put_region h d r = RErr h' e -> h' = h.
-Proof. unfold put_region. crush_err. Qed.
 Lemma set_body_err h d b h' e : set_body_m h d b = RErr h' e -> h' = h.
 Proof. unfold set_body_m. crush_err. Qed.
 Lemma set_style_err h s p v h' e : set_style_m h s p v = RErr h' e -> h' = h.
 Proof. unfold set_style_m. crush_err. Qed.
 Lemma add_anim_err h s p v h' e : add_anim_m h s p v = RErr h' e -> h' = h.
 Proof. unfold add_anim_m. crush_err. Qed.
+Lemma remove_anim_err h s p v h' e : remove_anim_m h s p v = RErr h' e -> h' = h.
+Proof. unfold remove_anim_m. crush_err. Qed.
 Lemma put_initial_err h d p v h' e : put_initial h d p v = RErr h' e -> h' = h.
 Proof. unfold put_initial. crush_err. Qed.
+Lemma remove_initial_err h d p h' e : remove_initial h d p = RErr h' e -> h' = h.
+Proof. unfold remove_initial. crush_err. Qed.
 Lemma set_begin_err h s v h' e : set_begin_m h s v = RErr h' e -> h' = h.
 Proof. unfold set_begin_m. crush_err. Qed.
 Lemma set_end_err h s v h' e : set_end_m h s v = RErr h' e -> h' = h.
@@ -43,72 +45,35 @@ Lemma set_lang_err h s v h' e : set_lang_m h s v = RErr h' e -> h' = h.
 Proof. unfold set_lang_m. crush_err. Qed.
 Lemma set_space_err h s v h' e : set_space_m h s v = RErr h' e -> h' = h.
 Proof. unfold set_space_m. crush_err. Qed.
+Lemma set_text_err h s v h' e : set_text_m h s v = RErr h' e -> h' = h.
+Proof. unfold set_text_m. crush_err. Qed.
+Lemma set_active_err h d v h' e : set_active_m h d v = RErr h' e -> h' = h.
+Proof. unfold set_active_m. crush_err. Qed.
+Lemma set_dar_err h d v h' e : set_dar_m h d v = RErr h' e -> h' = h.
+Proof. unfold set_dar_m. crush_err. Qed.
+Lemma set_cell_err h d v h' e : set_cell_m h d v = RErr h' e -> h' = h.
+Proof. unfold set_cell_m. crush_err. Qed.
+Lemma set_px_err h d v h' e : set_px_m h d v = RErr h' e -> h' = h.
+Proof. unfold set_px_m. crush_err. Qed.
+Lemma set_dlang_err h d v h' e : set_dlang_m h d v = RErr h' e -> h' = h.
+Proof. unfold set_dlang_m. crush_err. Qed.
+(* the read-only methods never change anything *)
+Lemma query_pure h q : heap_of (exec h (CQuery q)) = h.
+Proof. simpl. destruct (ask h q); reflexivity. Qed.
 
-(* remove_region: in a well-formed heap the clearing loop never raises *)
-Lemma clear_if_no_err id h x h' e : WF h -> x < nnodes h -> clear_if id h x <> RErr h' e.
+Theorem exec_atomic h c h' e : Inv h -> call_ok h c = true -> single_element c = true -> exec h c = RErr h' e -> h' = h.
 Proof.
-  intros HW Hx. unfold clear_if. destruct (n_region (nd h x)) as [r|] eqn:R; [|discriminate].
-  destruct (onat_eqb _ _); [|discriminate].
-  pose proof HW as (_ & _ & _ & _ & (W1 & _) & _). destruct (W1 x r Hx R) as [Cp _].
-  unfold set_region_m, kind_of. destruct (n_kind (nd h x)); try discriminate Cp; discriminate.
-Qed.
-Lemma clear_loop_no_err id : forall l h h' e, WF h -> (forall x, In x l -> x < nnodes h) -> each (clear_if id) l h <> RErr h' e.
-Proof.
-  induction l as [|x t IH]; intros h h' e HW Hl; simpl; [discriminate|].
-  assert (Hx : x < nnodes h) by (apply Hl; left; reflexivity).
-  destruct (clear_if id h x) as [hx|hx ex] eqn:E; simpl.
-  - pose proof (clear_if_WF id h x HW Hx) as Wx. pose proof (clear_if_keeps id h x) as ((N & _) & _). rewrite E in Wx, N. simpl in Wx, N.
-    apply IH; [exact Wx|]. intros y Hy. rewrite N. apply Hl. right; exact Hy.
-  - exfalso. eapply clear_if_no_err; eauto.
-Qed.
-Lemma remove_region_err h d id h' e : WF h -> d < ndocs h -> remove_region h d id = RErr h' e -> h' = h.
-Proof.
-  intros HW Hd. unfold remove_region. destruct (dict_get Nat.eqb (d_regions (dc h d)) id); [|discriminate].
-  destruct (d_body (dc h d)) as [b|] eqn:B; [|discriminate].
-  destruct (dfs (S (nnodes h)) h b) as [l|] eqn:D; [|intros [= <- _]; reflexivity].
-  change (each (clear_if id) l h >>= (fun h1 => ROk (updd h1 d (fun x => set_regions (dict_del Nat.eqb (d_regions x) id) x))) = RErr h' e -> h' = h).
-  destruct (each (clear_if id) l h) as [h1|h1 e1] eqn:E; simpl; [discriminate|].
-  exfalso. eapply (clear_loop_no_err id l h h1 e1); eauto.
-  pose proof HW as ((C & K & _) & _). destruct C as [_ C2]. destruct (C2 d Hd) as [Rb _]. rewrite B in Rb.
-  intros x Hx. eapply (dfs_range h K); [exact Rb|exact D|exact Hx].
-Qed.
-
-(* set_doc on an element without children, or detaching a non-root *)
-Lemma set_doc_err h s d h' e : (d = None -> t_set_doc_none_children h s = false) ->
-  (d <> None -> n_first (nd h s) = None) -> set_doc_m h s d = RErr h' e -> h' = h.
-Proof.
-  intros T4 O. unfold set_doc_m. rewrite set_doc_rec_S. destruct d as [d|].
-  - specialize (O ltac:(discriminate)).
-    destruct (dfs (S (nnodes h)) h s) as [l|]; [|intros [= <- _]; reflexivity].
-    destruct (existsb _ l); [intros [= <- _]; reflexivity|]. simpl bind. rewrite (set_doc_leaf _ _ _ _ O). discriminate.
-  - specialize (T4 eq_refl). unfold t_set_doc_none_children in T4.
-    destruct (is_some (n_parent (nd h s))) eqn:P; [intros [= <- _]; reflexivity|]. simpl in T4. apply is_some_false in T4.
-    destruct (set_region_m h s None) as [h1|h1 e1] eqn:E; simpl bind.
-    + assert (F1 : n_first (nd h1 s) = None).
-      { revert E. unfold set_region_m. destruct (kind_of h s); simpl; intros [= <-]; try exact T4; rewrite (proj_updn n_first) by reflexivity; exact T4. }
-      rewrite (set_doc_leaf _ _ _ _ F1). discriminate.
-    + intros [= <- _]. eapply set_region_err; eauto.
-Qed.
-
-Theorem step_atomic h c e : WF h -> single_element c = true -> trigger h c <> Some 4 ->
-  snd (step h c) = ORaised e -> fst (step h c) = h.
-Proof.
-  intros HW S T. unfold step. destruct (call_ok h c) eqn:OK; [|reflexivity]. cbn [fst snd].
-  destruct (exec h c) as [h1|h1 e1] eqn:E; [discriminate|]. intros _. simpl.
-  unfold trigger in T. rewrite OK in T. cbn [negb] in T.
+  intros [HW HR] OK S E.
   destruct c; cbn [exec call_ok single_element] in *; try discriminate S; unfold node_ok, doc_ok in OK;
     repeat match goal with H : _ && _ = true |- _ => apply andb_true_iff in H; destruct H end;
     repeat match goal with H : (_ <? _) = true |- _ => apply ltb_lt' in H end.
   - eapply push_child_err; eauto.
   - eapply remove_err; eauto.
   - eapply remove_child_err; eauto.
-  - destruct d as [d|]; [eapply set_doc_some_err; eauto|].
-    eapply set_doc_err; [| |exact E].
-    + intros _. destruct (t_set_doc_none_children h s); [congruence|reflexivity].
-    + intro N. congruence.
+  - eapply set_doc_err; eauto.
   - eapply set_region_err; eauto.
-  - eapply put_region_err; eauto.
-  - eapply remove_region_err; eauto.
+  - destruct (put_region_Inv h d r HW HR) as (_ & _ & A); auto. apply (A h' e E).
+  - destruct (remove_region_Inv h d id HW HR) as (_ & _ & A); auto. apply (A h' e E).
   - eapply set_body_err; eauto.
   - eapply set_style_err; eauto.
   - eapply add_anim_err; eauto.
@@ -119,4 +84,22 @@ Proof.
   - eapply set_id_err; eauto.
   - eapply set_lang_err; eauto.
   - eapply set_space_err; eauto.
+  - eapply remove_anim_err; eauto.
+  - eapply remove_initial_err; eauto.
+  - eapply set_text_err; eauto.
+  - eapply set_active_err; eauto.
+  - eapply set_cell_err; eauto.
+  - eapply set_px_err; eauto.
+  - eapply set_dar_err; eauto.
+  - eapply set_dlang_err; eauto.
+  - destruct (ask h q); try discriminate E. injection E as <- _. reflexivity.
 Qed.
+
+Theorem step_atomic h c e : Inv h -> single_element c = true -> snd (step h c) = ORaised e -> fst (step h c) = h.
+Proof.
+  intros HI S. unfold step. destruct (call_ok h c) eqn:OK; [|reflexivity]. cbn [fst snd].
+  destruct (exec h c) as [h1|h1 e1] eqn:E; [discriminate|]. intros _. simpl.
+  eapply exec_atomic; eauto.
+Qed.
+Theorem step_query_pure h q : fst (step h (CQuery q)) = h.
+Proof. unfold step. destruct (call_ok h (CQuery q)); [|reflexivity]. cbn [fst]. apply query_pure. Qed.
